@@ -13,8 +13,9 @@ const uint8_t * g_ce_base;
 #include "sp800_90a_spec.h"
 
 /* arbitrary DRBG state, arbitrary call counter, arbitrary window placement, arbitrary ghost indices */
+/* DFCC makes statics nondet; the library never reassigns this pointer */
+#define DRBG_MEMZERO() insecure_memzero_ptr = insecure_memzero_func
 #define DRBG_PRE() \
-	insecure_memzero_ptr = insecure_memzero_func;	/* DFCC makes statics nondet; the library never reassigns it */ \
 	__CPROVER_havoc_object(&drbg); \
 	__CPROVER_havoc_object(&g_hm); \
 	IN(size_t, hm_n0); IN(size_t, hm_base); IN(size_t, bi); IN(size_t, di); \
